@@ -29,7 +29,9 @@ import LdkModel.Prim.ChaChaPoly
      replies                        → plaintext lengths of the messages the node built itself during the last
                                       `run` (pongs, decode-failure warnings), comma separated, `-` = none
      rcr <n>                        → wire length of a reply_channel_range carrying n short channel ids
-     gate <hex>                     → one gateStep on a plaintext message (state kept): init|up|ignored|disc
+     runc <chunk sizes>             → calls=<handler methods the dispatch table names for the messages passed up, in order|-> <open|disc>
+                                      (same nodeRun; the recording handlers of the harness must have seen exactly these calls)
+     gate <hex>                     → one gateStep on a plaintext message (state kept): init|up|up+disc|ignored|disc
 -/
 namespace Ldk.Driver
 open Ldk Ldk.Noise Ldk.Framing Ldk.PeerMsgs
@@ -94,14 +96,13 @@ def genPayload (len seed : Nat) : Bytes :=
 
 def typed (ty len : Nat) : Bytes := be16 ty ++ List.replicate (len - 2) 0
 
-/-- how the harness' far-side reader classifies a type: 16 = Init; 18/19 ping/pong are consumed by
-    the PeerManager itself; the custom reader takes `t ≥ 32768 ∧ t % 4 < 2`; every other type the
-    harness sends is not a BOLT message LDK knows (`Message::Unknown`) -/
-def classify (t : Nat) : Kind :=
-  if t == 16 then .init
-  else if t == 18 || t == 19 then .known
-  else if t ≥ 32768 && t % 4 < 2 then .known
-  else .unknown
+/-- which `wire::Message` variant a type id decodes to: the table of `wire::do_read` (generated,
+    `PeerGate.wireVariant`), and for ids outside it the harness' custom reader, which takes
+    `t ≥ 32768 ∧ t % 4 < 2`; everything else is `Message::Unknown` -/
+def classify (t : Nat) : PeerGate.MK :=
+  match PeerGate.wireVariant t with
+  | some k => k
+  | none => if t ≥ 32768 && t % 4 < 2 then .Custom else .Unknown
 
 /-- `wire::read` on the non-control messages the harness sends: a channel_announcement / node_announcement /
     channel_update too short to hold its leading 64-byte signature fails with ShortRead
@@ -197,6 +198,14 @@ def c15step (st : C15St) (ws : List String) : C15St × String :=
     let d := ups.foldl digestMsg 7
     ({ st with stream := [], lastReplies := repliesOf evs },
      s!"n={ups.length} d={d} {if dropped then "disc" else "open"}")
+  | ["runc", sizes] =>
+    let bytes := st.stream.reverse.flatten
+    let (delivered, r) := recvChunks c st.prcv (cutBy bytes (splitCommas sizes))
+    let evs := nodeRun classify (fun _ => true) otherDecode st.gate delivered
+    let calls := (upsOf evs).flatMap (fun m => (PeerGate.dispatch (classify (msgType m)) (msgType m % 2 == 0)).calls)
+    let dropped := r.isNone || evs.contains .disc
+    ({ st with stream := [], lastReplies := repliesOf evs },
+     s!"calls={if calls.isEmpty then "-" else ",".intercalate calls} {if dropped then "disc" else "open"}")
   | ["replies"] =>
     (st, if st.lastReplies.isEmpty then "-"
          else ",".intercalate (st.lastReplies.map (fun r => toString r.length)))
@@ -204,7 +213,7 @@ def c15step (st : C15St) (ws : List String) : C15St × String :=
   | ["gate", m] =>
     let (g1, o) := gateStep classify (fun _ => true) st.gate (unhex m)
     ({ st with gate := g1 }, match o with
-      | .initOk => "init" | .passUp _ => "up" | .ignored => "ignored" | .disconnect => "disc")
+      | .initOk => "init" | .passUp _ => "up" | .passUpDisc _ => "up+disc" | .ignored => "ignored" | .disconnect => "disc")
   | _ => (st, "bad-op")
 
 def c15cipher : Drv where
